@@ -64,7 +64,7 @@ pub struct ClassStore { }
 impl ClassStore { #[verifier::external_body] fn vec_class(&self) -> Gc<ObjClass> { unimplemented!() } }
 
 // the VM as far as element access is concerned: the operand stack of the active fiber, the content of vector cells
-pub struct Vm { pub ghost stack: Seq<Value>, pub ghost vecs: Map<int, Seq<Value>>, pub ghost raised: Option<ErrorKind>, pub class_store: ClassStore }
+pub struct Vm { pub ghost stack: Seq<Value>, pub ghost vecs: Map<int, Seq<Value>>, pub ghost raised: Option<ErrorKind>, pub class_store: ClassStore, pub ghost next_byte: u8 }
 impl Vm {
     pub open spec fn top(&self, depth: int) -> Value { self.stack[self.stack.len() - 1 - depth] }
     pub open spec fn vid(&self, depth: int) -> int { self.top(depth)->ObjVec_0.id() }
@@ -119,6 +119,44 @@ impl Vm {
     fn new_root_obj_tuple(&mut self, elements: Vec<Value>) -> (r: Root<ObjTuple>) ensures final(self).stack == old(self).stack, final(self).vecs == old(self).vecs, final(self).raised == old(self).raised { unimplemented!() }
     #[verifier::external_body]
     fn new_vec_value(&mut self, class: Gc<ObjClass>, elements: Vec<Value>) -> (r: Value) ensures final(self).stack == old(self).stack, final(self).raised == old(self).raised, forall|i: int| #[trigger] old(self).vecs.dom().contains(i) ==> final(self).vecs.dom().contains(i) && final(self).vecs[i] == old(self).vecs[i] { unimplemented!() }
+
+    // BuildVec n / BuildTuple n: the n operands on top of the stack become the elements IN THE ORDER THEY WERE PUSHED
+    // (the first element of `[a, b, c]` is a) and are replaced by the new container; the operand count cannot exceed
+    // what is on the stack (C04: the compiler counts the elements it pushed)
+    #[verifier::external_body]
+    fn read_byte(&mut self) -> (r: u8) ensures r == old(self).next_byte, final(self).stack == old(self).stack, final(self).vecs == old(self).vecs, final(self).raised == old(self).raised { unimplemented!() }
+    #[verifier::external_body]
+    fn stack_size(&self) -> (r: usize) ensures r == self.stack.len() { unimplemented!() }
+    // `self.active_fiber().stack[begin..end].iter().copied().collect()`
+    #[verifier::external_body]
+    fn stack_slice(&self, begin: usize, end: usize) -> (r: Vec<Value>) requires begin <= end <= self.stack.len() ensures r@ == self.stack.subrange(begin as int, end as int) { unimplemented!() }
+    #[verifier::external_body]
+    fn new_root_obj_vec(&mut self) -> (r: Root<RefCell<ObjVec>>)
+        ensures !old(self).vecs.dom().contains(r.id()), final(self).vecs == old(self).vecs.insert(r.id(), Seq::<Value>::empty()), final(self).stack == old(self).stack, final(self).raised == old(self).raised, final(self).next_byte == old(self).next_byte
+    { unimplemented!() }
+    #[verifier::external_body]
+    fn set_vec_elements(&mut self, g: Gc<RefCell<ObjVec>>, elements: Vec<Value>)
+        requires old(self).vecs.dom().contains(g.id())
+        ensures final(self).vecs == old(self).vecs.insert(g.id(), elements@), final(self).stack == old(self).stack, final(self).raised == old(self).raised
+    { unimplemented!() }
+    #[verifier::external_body]
+    fn push(&mut self, value: Value) ensures final(self).stack == old(self).stack.push(value), final(self).vecs == old(self).vecs, final(self).raised == old(self).raised { unimplemented!() }
+    #[verifier::external_body]
+    fn new_tuple_value(&mut self, elements: Vec<Value>) -> (r: Value)
+        ensures r is ObjTuple && r->ObjTuple_0.obj().elements@ == elements@, final(self).stack == old(self).stack, final(self).vecs == old(self).vecs, final(self).raised == old(self).raised
+    { unimplemented!() }
+
+    //@fn file=yarel/src/vm.rs path=Vm::build_vec_impl props=C13,C02,C05
+    //@  subst "vec.borrow_mut().elements = self.active_fiber().stack[begin..end] .iter() .copied() .collect();" => "let verif_elems = self.stack_slice(begin, end); self.set_vec_elements(vec.as_gc(), verif_elems);"
+    //@  requires (old(self).next_byte as int) <= old(self).stack.len()
+    //@  ensures @vector_elements_are_the_operands_in_source_order ({ let n = old(self).next_byte as int; final(self).stack.len() == old(self).stack.len() - n + 1 && final(self).stack.drop_last() == old(self).stack.take(old(self).stack.len() - n) && final(self).stack.last() is ObjVec && final(self).vecs.dom().contains(final(self).stack.last()->ObjVec_0.id()) && final(self).vecs[final(self).stack.last()->ObjVec_0.id()] == old(self).stack.subrange(old(self).stack.len() - n, old(self).stack.len() as int) && !old(self).vecs.dom().contains(final(self).stack.last()->ObjVec_0.id()) })
+    //@end
+    //@fn file=yarel/src/vm.rs path=Vm::build_tuple_impl props=C13,C02,C05
+    //@  subst "self.active_fiber().stack[begin..end] .iter() .copied() .collect()" => "self.stack_slice(begin, end)"
+    //@  subst "let tuple = self.new_root_obj_tuple(elements); self.discard(num_operands); self.push(Value::ObjTuple(tuple.as_gc()));" => "let tuple = self.new_tuple_value(elements); self.discard(num_operands); self.push(tuple);"
+    //@  requires (old(self).next_byte as int) <= old(self).stack.len()
+    //@  ensures @tuple_elements_are_the_operands_in_source_order ({ let n = old(self).next_byte as int; final(self).stack.len() == old(self).stack.len() - n + 1 && final(self).stack.drop_last() == old(self).stack.take(old(self).stack.len() - n) && final(self).stack.last() is ObjTuple && final(self).stack.last()->ObjTuple_0.obj().elements@ == old(self).stack.subrange(old(self).stack.len() - n, old(self).stack.len() as int) })
+    //@end
 
     // v[i] = x   (stack: v, i, x): element norm(i) of v becomes x and nothing else changes; the three operands are
     // replaced by nil. Not a vector: TypeError. Bad index: the error try_as_bounded_index reports; v unchanged.
